@@ -828,9 +828,32 @@ func IntoObject(injector Injector, sidecarTemplate Templates, valuesConfig Value
 		Spec:       *podSpec,
 	}
 
+	// whether a pod is injected is decided by the labels and annotations of the pod, i.e. of the pod template; its
+	// namespace is the template's, else the workload's (as the webhook falls back to the request namespace)
+	decisionMeta := pod.ObjectMeta
+	if podMetadata != nil {
+		decisionMeta = *podMetadata
+	}
+	if decisionMeta.Namespace == "" {
+		decisionMeta.Namespace = namespace
+	}
+	skip := func() (any, error) {
+		warningStr := fmt.Sprintf("===> Skipping injection because %q has sidecar injection disabled\n", fullName)
+		if kind != "" {
+			warningStr = fmt.Sprintf("===> Skipping injection because %s %q has sidecar injection disabled\n",
+				kind, fullName)
+		}
+		warningHandler(warningStr)
+		return out, nil
+	}
+
 	var patchBytes []byte
 	var err error
 	if injector != nil {
+		if podMetadata != nil && !injectRequired(IgnoredNamespaces.UnsortedList(), &Config{Policy: InjectionPolicyEnabled}, &pod.Spec, decisionMeta) {
+			// the injector is handed the metadata the injection writes to and cannot see what the pods themselves say
+			return skip()
+		}
 		patchBytes, err = injector.Inject(pod, namespace)
 	}
 	if err != nil {
@@ -847,23 +870,8 @@ func IntoObject(injector Injector, sidecarTemplate Templates, valuesConfig Value
 	}
 
 	if patchBytes == nil {
-		// the namespace of the pod is the template's, else the workload's (as the webhook falls back to the request namespace)
-		decisionMeta := pod.ObjectMeta
-		if podMetadata != nil {
-			// whether a pod is injected is decided by the labels and annotations of the pod, i.e. of the pod template
-			decisionMeta = *podMetadata
-		}
-		if decisionMeta.Namespace == "" {
-			decisionMeta.Namespace = namespace
-		}
 		if !injectRequired(IgnoredNamespaces.UnsortedList(), &Config{Policy: InjectionPolicyEnabled}, &pod.Spec, decisionMeta) {
-			warningStr := fmt.Sprintf("===> Skipping injection because %q has sidecar injection disabled\n", fullName)
-			if kind != "" {
-				warningStr = fmt.Sprintf("===> Skipping injection because %s %q has sidecar injection disabled\n",
-					kind, fullName)
-			}
-			warningHandler(warningStr)
-			return out, nil
+			return skip()
 		}
 
 		var nativeSidecar bool
